@@ -256,6 +256,101 @@ func (w *Walker) forcedPlacement() string {
 	return ""
 }
 
+// shuffleGame builds a game history in which both sides move an officer (or the king) out and
+// back: one or two full there-and-back cycles from a position S and then 0-3 plies of the next
+// cycle, so that S (or a position of the cycle) has occurred once or twice already and the search
+// tree contains the move that repeats it again. The clock of the root FEN is small so that the
+// repetition falls on small half-move clock values as well as larger ones.
+func (w *Walker) shuffleGame() (GamePos, bool) {
+	corpus := loadCorpus()
+	for tries := 0; tries < 50; tries++ {
+		root := corpus[w.rng.Intn(len(corpus))]
+		if w.rng.Chance(40) {
+			root = w.randomPlacement(14)
+		}
+		f := strings.Fields(root)
+		if len(f) < 6 {
+			continue
+		}
+		f[4] = []string{"0", "0", "0", "0", "1", "2", "7", "20"}[w.rng.Intn(8)] // mostly right after an irreversible move
+		root = strings.Join(f, " ")
+		p, err := position.NewPositionFen(root)
+		if err != nil || p == nil || p.IsAttacked(p.KingSquare(p.NextPlayer().Flip()), p.NextPlayer()) {
+			continue
+		}
+		var hist []Move
+		for k := w.rng.Intn(5) - 2; k > 0; k-- {
+			lm := w.legalMoves(p)
+			if len(lm) == 0 {
+				break
+			}
+			m := lm[w.rng.Intn(len(lm))]
+			p.DoMove(m)
+			hist = append(hist, m)
+		}
+		reversible := func() (Move, bool) {
+			lm := w.legalMoves(p)
+			var cands []Move
+			for _, m := range lm {
+				if m.MoveType() == Normal && p.GetPiece(m.To()) == PieceNone && p.GetPiece(m.From()).TypeOf() != Pawn {
+					cands = append(cands, m)
+				}
+			}
+			if len(cands) == 0 {
+				return MoveNone, false
+			}
+			return cands[w.rng.Intn(len(cands))], true
+		}
+		play := func(m Move) bool {
+			for _, x := range w.legalMoves(p) {
+				if x.MoveOf() == m.MoveOf() {
+					p.DoMove(x)
+					hist = append(hist, x)
+					return true
+				}
+			}
+			return false
+		}
+		m1, ok1 := reversible()
+		if !ok1 || !play(m1) {
+			continue
+		}
+		m2, ok2 := reversible()
+		if !ok2 || !play(m2) {
+			continue
+		}
+		r1 := CreateMove(m1.To(), m1.From(), Normal, PtNone)
+		r2 := CreateMove(m2.To(), m2.From(), Normal, PtNone)
+		if !play(r1) || !play(r2) {
+			continue
+		}
+		cycle := []Move{m1, m2, r1, r2}
+		ok := true
+		if w.rng.Chance(25) { // a second full cycle: the start position has occurred three times
+			for _, m := range cycle {
+				ok = ok && play(m)
+			}
+		}
+		if !ok {
+			continue
+		}
+		j := w.rng.Intn(4)
+		if w.rng.Bool() {
+			j = 3 // the next move completes the cycle again
+		}
+		for i := 0; i < j; i++ { // the first plies of the next cycle
+			if !play(cycle[i]) {
+				break
+			}
+		}
+		if len(w.legalMoves(p)) == 0 {
+			continue
+		}
+		return GamePos{Root: root, Moves: append([]Move{}, hist...), P: p}, true
+	}
+	return GamePos{}, false
+}
+
 // PositionSource yields positions (with the game history that led to them).
 type GamePos struct {
 	Root  string // FEN the game started from
